@@ -25,15 +25,16 @@ changes others had already tried, so as to get different ones), and each was con
 (`tools/keep_seed.py`: the 51 tests pass with the change, the demo passes without it and fails with it). `tools/seed.sh <dir>`
 applies a patch to a scratch copy of the package and runs the property's check against it (`VERIF_REPO`); `tools/seed_table.sh`
 does so for all and records the outcome in each meta.json. On the final tree **every kept seed makes the check of its property exit
-1 with a VIOLATION line and a natively replayed failing input**. {miss} of them were NOT caught (or only produced a checker fault)
+1 with a VIOLATION line and a natively replayed failing input** (for C12-d and C13-e one of the several obligations reported is, in
+addition, a refuted VC whose counter-model did not reproduce natively: that line ends in no-failing-input-found). {miss} of them were NOT caught (or only produced a checker fault)
 when first tried; each such miss led to a stronger obligation or a more robust driver - never to a weaker clause - as noted in the
 last column.  What the misses had in common, and what was changed in general: (i) callee contracts stubbed inside one property hide
 defects of the callee - the contract relied on is now an obligation of its own (C11.shard_account_cell, C20.verify); (ii) callbacks
 supplied by a harness must observe the state they are called in (C10.node); (iii) exotic / non-zero-level cells and equivalent
 spellings are separate shape classes (C08, C12, C19.dag); (iv) loops in comprehensions are loops (ghost ticks), and count fields are
 made symbolic (C19.boc_header); (v) a change that takes the code out of the loader's transparent fragment or makes a harness decoder
-run off a malformed result must end in a verdict from the native stand-ins, not in a checker fault; (vi) rounds six and seven (40
-seeds, 9 missed at first, most of them reported by the check of a NEIGHBOURING property): boundaries of quantified ranges that a case
+run off a malformed result must end in a verdict from the native stand-ins, not in a checker fault; (vi) rounds six to nine (60
+seeds, 15 missed at first, most of them reported by the check of a NEIGHBOURING property): boundaries of quantified ranges that a case
 list started above (width 0, 1017..1023 data bits, m = 0), wrappers read only from a fresh slice (reference cursor), generators
 called with defaults only, equal-but-distinct objects as opposed to shared ones, and per-object caches that survive a change further
 down (C17.reserialize) or a different enclosing bag (C04/C08 shared_object).
